@@ -11,7 +11,7 @@ from . import common as C
 PLAIN = [["Solver", {}], ["SolverCacheless", {}], ["SolverStrings", {}]]
 
 # clauses each property owns (a failing clause outside the set belongs to another property's check)
-QUERY_CLAUSES = {"satisfiable", "eval-infeasible", "eval-duplicates", "eval-count", "min", "max", "solution",
+QUERY_CLAUSES = {"isolation", "satisfiable", "eval-infeasible", "eval-duplicates", "eval-count", "min", "max", "solution",
                  "unsat-on-sat", "answer-on-unsat", "eval-on-unsat", "solution-on-unsat", "exc"}
 TRUTH_CLAUSES = {"is_true-overclaims", "is_false-overclaims"}
 APPROX_CLAUSES = {"approx-unsat-on-sat", "approx-excludes-value", "approx-min-too-high", "approx-max-too-low",
@@ -63,8 +63,11 @@ SPECS = {
                 + jobs_generic([["SolverHybrid", {}]], "c13h", 40, 400, n=2, alpha="approx",
                                cfg={"hybrid_exact": False})(tier, seed),
                 clauses=QUERY_CLAUSES | TRUTH_CLAUSES | APPROX_CLAUSES, level="model_checking"),
-    "C14": dict(jobs=jobs_generic(ALL_EXACT, "c14", 40, 400, branchy=True),
-                clauses=QUERY_CLAUSES | TRUTH_CLAUSES, level="model_checking"),
+    "C14": dict(jobs=lambda tier, seed: jobs_generic(ALL_EXACT + [["SolverReplacementCacheless", {}]], "c14", 40, 400, n=12,
+                                                     branchy=True)(tier, seed)
+                + jobs_generic([["SolverHybrid", {}], ["SolverVSA", {}]], "c14a", 40, 400, n=4, branchy=True, alpha="approx",
+                               cfg={"hybrid_exact": False})(tier, seed),
+                clauses=QUERY_CLAUSES | TRUTH_CLAUSES | APPROX_CLAUSES | {"isolation"}, level="model_checking"),
     "C15": dict(jobs=lambda tier, seed: jobs_generic(PLAIN + [["SolverHybrid", {}]], "c15", 40, 400, n=8, multi=True)(tier, seed)
                 + jobs_generic(COMPOSITE, "c15c", 40, 400, n=8, W=2, alpha="xyz", multi=True)(tier, seed),
                 clauses=QUERY_CLAUSES | TRUTH_CLAUSES | SPLIT_CLAUSES, level="model_checking"),
